@@ -426,7 +426,9 @@ class C20(Scenario):
         }
         return viols, {"faults": faults, "probes": probes, "state": state, "nontrivial": nontrivial}
 
-    def simplify(self, plan):
+    def simplify(self, plan, phase="post"):
+        if phase == "pre":
+            return
         # drop handlers from defalg units one at a time; un-fault faulted units
         units = plan["units"]
         for i, u in enumerate(units):
